@@ -86,6 +86,7 @@ Proof.
   { destruct a; try apply total_fail. cbn [andb].
     apply total_bind; [apply total_lift, tattr_validate_total|]. intros _.
     apply total_bind; [apply total_lift, hyp_validate_total|]. intros _.
+    apply total_bind; [apply total_lift; unfold hyp_fee_validate; destruct (fee_coin_bad _ _); reflexivity|]. intros _.
     apply total_bind; [apply total_mext|]. intros _.
     destruct (cfg_hyp_token cfg token); [|apply total_fail].
     destruct (negb _); [apply total_fail|apply total_ext_moving]. }
